@@ -335,42 +335,7 @@ func c15(c *core.Ctx, r *core.Report) {
 	r.Floor("R15.grow", 12, "9 edge + 7 status write sites, 4 deletes measured")
 
 	// ---- R15.merge
-	if fd, p := c.Decl("analysis/escape", "EscapeGraph.Merge"); fd != nil {
-		calls := map[string]bool{}
-		ranges := map[string]bool{}
-		ast.Inspect(fd.Body, func(n ast.Node) bool {
-			switch y := n.(type) {
-			case *ast.CallExpr:
-				if o := core.CalleeObj(y, p.TypesInfo); o != nil {
-					calls[o.Name()] = true
-				}
-			case *ast.RangeStmt:
-				ast.Inspect(y.X, func(m ast.Node) bool {
-					if se, ok := m.(*ast.SelectorExpr); ok {
-						ranges[se.Sel.Name] = true
-					}
-					return true
-				})
-			}
-			return true
-		})
-		// no direct store writes in Merge itself
-		direct := false
-		if mf := c.Func("analysis/escape", "EscapeGraph.Merge"); mf != nil {
-			for _, b := range mf.Blocks {
-				for _, ins := range b.Instrs {
-					if _, ok := ins.(*ssa.MapUpdate); ok {
-						direct = true
-					}
-				}
-			}
-		}
-		ok := calls["AddEdge"] && calls["MergeNodeStatus"] && ranges["Edges"] && ranges["status"] && !direct
-		r.Check(ok, "R15.merge", "analysis/escape.EscapeGraph.Merge|built-from-monotone-ops", c.Pos(fd.Pos()), "Merge adds every edge (AddEdge over h.Edges) and raises every status (MergeNodeStatus over h.status) of its argument, with no direct store writes",
-			"Merge is not built from AddEdge over all edges and MergeNodeStatus over all statuses of its argument: it is not an upper bound of both operands")
-	} else {
-		r.Fail("infra.anchor-unresolved", "R15.merge|Merge", "", "not found")
-	}
+	c15merge(c, r)
 	for _, nm := range []string{"Matches", "LessEqual"} {
 		if fd, _ := c.Decl("analysis/escape", "EscapeGraph."+nm); fd != nil {
 			sel := map[string]bool{}
